@@ -324,7 +324,7 @@ func multi(r *hx.Rand, g *hx.Gen, one func(*hx.Rand, *hx.Gen) string) []byte {
 }
 
 func gen(g *hx.Gen) {
-	n := g.Count(4000, 200000)
+	n := g.Count(4000, 100000)
 	r := g.R
 	for i := 0; i < n; i++ {
 		switch k := r.Intn(20); {
